@@ -155,7 +155,7 @@ fn timeout_error(limit: Duration) -> (r: Error)
     ensures r.is_timeout(), r.trace().len() == 0
 { unimplemented!() }
 
-fn unit_to_null(_p: (u8, u32)) -> KValue { KValue::Null }
+fn unit_to_null(_p: (u8, u32, usize, usize)) -> KValue { KValue::Null }
 #[verifier::external_body]
 fn clone_error(e: &Error) -> (r: Error) ensures r == *e { unimplemented!() }
 
@@ -291,6 +291,10 @@ VM_SPECS = r"""
         &&& self.register_base == o.register_base                               // register numbering as before
         &&& self.registers@.len() == o.registers@.len()                         // no register left behind
     }
+    spec fn builders_not_grown(&self, o: &KotoVm) -> bool {
+        &&& self.sequence_builders@.len() <= o.sequence_builders@.len()
+        &&& self.string_builders@.len() <= o.string_builders@.len()
+    }
     spec fn builders_restored(&self, o: &KotoVm) -> bool {
         &&& self.sequence_builders@.len() == o.sequence_builders@.len()
         &&& self.string_builders@.len() == o.string_builders@.len()
@@ -366,6 +370,7 @@ VM_SPECS = r"""
         let n = o.call_stack@.len() as int;
         &&& f.wf()
         &&& f.execution_state == o.execution_state
+        &&& f.sequence_builders@ == o.sequence_builders@ && f.string_builders@ == o.string_builders@
         &&& f.registers@.len() >= o.registers@.len()
         &&& (o.registers@.len() >= o.min_frame_registers ==> f.registers@.len() >= f.min_frame_registers)
         &&& f.registers@.len() < 0x4000_0000_0000_0000
@@ -531,6 +536,7 @@ UNIT = Unit(
         Type("crates/runtime/src/types/meta_map.rs", "enum BinaryOp"),
         Type("crates/runtime/src/types/meta_map.rs", "enum ReadOp"),
         Type("crates/runtime/src/types/meta_map.rs", "enum WriteOp"),
+        Type(F, "type CatchPoint"),
         Type(F, "struct Frame", subst=[("Option<NonLocals>", "Option<NonLocals>", 1)]),
         Type(
             F,
@@ -653,6 +659,19 @@ UNIT = Unit(
         final(self).cur_chunk() == old(self).cur_chunk(),
         final(self).registers@.len() == (if old(self).registers@.len() <= old(self).register_base + len as int { old(self).registers@.len() as int } else { old(self).register_base + len as int }),   // @truncates_to_base_plus_len
         final(self).wf(),
+"""),
+        Fn(F, "impl KotoVm :: fn builder_counts", props=("C07", "C04"), spec=r"""
+    ensures r.0 == self.sequence_builders@.len(), r.1 == self.string_builders@.len(),
+"""),
+        Fn(F, "impl KotoVm :: fn truncate_builders", props=("C07", "C04"), spec=r"""
+    ensures
+        // builders above the recorded sizes are discarded, the others are untouched
+        final(self).sequence_builders@ == old(self).sequence_builders@.take(if counts.0 <= old(self).sequence_builders@.len() { counts.0 as int } else { old(self).sequence_builders@.len() as int }),   // @sequence_builders_truncated
+        final(self).string_builders@ == old(self).string_builders@.take(if counts.1 <= old(self).string_builders@.len() { counts.1 as int } else { old(self).string_builders@.len() as int }),   // @string_builders_truncated
+        final(self).registers@ == old(self).registers@, final(self).register_base == old(self).register_base,
+        final(self).min_frame_registers == old(self).min_frame_registers, final(self).call_stack@ == old(self).call_stack@,
+        final(self).instruction_ip == old(self).instruction_ip, final(self).execution_state == old(self).execution_state,
+        final(self).reader == old(self).reader,
 """),
         Fn(F, "impl KotoVm :: fn frame_mut", props=("C07",),
            spec=r"""
@@ -805,7 +824,7 @@ UNIT = Unit(
                ("match self.execute_instruction(instruction) {", "proof { lemma_barrier_index(self.call_stack@); }\nassert(ExecutionTimeout::polled_between(timeout_at_loop_head, timeout));   // @deadline_polled_before_every_instruction"),
                ("self.execution_state = ExecutionState::Inactive;", "proof { lemma_barrier_index(self.call_stack@); }", 1),
                ("self.execution_state = ExecutionState::Inactive;", "proof { lemma_barrier_index(self.call_stack@); }", 3),
-               ("let catch_value = catch_value_of(error);", "proof { lemma_barrier_index(self.call_stack@); }"),
+               ("let catch_value = catch_value_of(error);", "proof { lemma_barrier_index(self.call_stack@); }\nassert(self.sequence_builders@.len() <= sequence_builder_count && self.string_builders@.len() <= string_builder_count);   // @abandoned_builders_discarded_at_catch"),
                ("self.instruction_ip = self.ip();", "proof { lemma_barrier_index(self.call_stack@); }", 2),
            ],
            ),
@@ -839,6 +858,9 @@ UNIT = Unit(
         !(final(self).execution_state is Suspended) ==> final(self).register_base == old(self).register_base,   // @register_base_restored
         !(final(self).execution_state is Suspended) ==> final(self).registers@.len() == old(self).registers@.len(),   // @no_register_left_behind
         !(final(self).execution_state is Active),                                                               // @state_not_active_on_exit
+        // C07/C04: a failed run leaves no half-built list, tuple or string behind
+        r is Err ==> final(self).sequence_builders@.len() <= old(self).sequence_builders@.len()
+                  && final(self).string_builders@.len() <= old(self).string_builders@.len(),                    // @no_builder_left_behind_on_error
 """),
         Fn(F, "impl KotoVm :: fn get_overridden_op_result", props=("C07", "C04"),
            spec=r"""
@@ -857,6 +879,8 @@ UNIT = Unit(
         !(final(self).execution_state is Suspended) ==> final(self).registers@.len() == final(self).register_base + result_register as int,   // @registers_truncated_on_every_exit
         !(final(self).execution_state is Suspended) ==> final(self).register_base == Self::base_at(old(self).call_stack@, old_frame_count as int),   // @register_base_restored
         old(self).call_stack@.len() == old_frame_count ==> final(self).execution_state == old(self).execution_state,
+        // C07/C04: an error inside the overridden operator leaves no half-built value behind
+        r is Err && old(self).call_stack@.len() == old_frame_count + 1 ==> final(self).builders_not_grown(old(self)),   // @no_builder_left_behind_on_error
 """),
         Fn(F, "impl KotoVm :: fn run_binary_op", props=("C07",), spec=r"""
     requires
@@ -1097,6 +1121,7 @@ UNIT = Unit(
     ensures
         // C07: on EVERY exit path (value, error from argument binding, error inside the callee)
         final(self).wf(),                                                                                       // @wf_on_every_exit
+        r is Err ==> final(self).builders_not_grown(old(self)),                                                 // @no_builder_left_behind_on_error
         !(final(self).execution_state is Suspended) ==> final(self).call_stack@.len() == old(self).call_stack@.len(),   // @no_frame_left_behind
         !(final(self).execution_state is Suspended) ==> forall|i: int| 0 <= i < old(self).call_stack@.len() ==> Self::frame_equiv(#[trigger] final(self).call_stack@[i], old(self).call_stack@[i]),   // @caller_frames_kept
         !(final(self).execution_state is Suspended) ==> final(self).register_base == old(self).register_base,   // @register_base_restored
